@@ -32,7 +32,9 @@ RULE = ('cases are histories of first-touch events on a fresh process (217 event
         '13 000-entry digest with the canonical order')
 TECHNIQUE = ('runtime monitoring: fork-tree exploration of first-touch histories to closure of the abstract loader state, '
              'metamorphic oracle (value of every event and digest of every served value must equal the canonical order), '
-             'fresh-interpreter replay of violating and random histories, sys.monitoring trace of which route fired each loader')
+             'fresh-interpreter replay of violating and random histories, sys.monitoring trace of which route fired each loader; '
+             'a user-registered lazy group (core.delayed_load with the isotope / ion flags) run over first-touch histories in '
+             'fresh interpreters against what its loader set')
 LEVEL_TEXT = ('Every event of a 217-event alphabet is applied to every reachable abstract loader state of the public table '
               '(closure reached by a breadth-first fork walk from a pristine interpreter); each event value and a digest of '
               'about 13 000 lazily served values per state are compared with the canonical order; violating histories and '
